@@ -518,6 +518,13 @@ class TextGen:
             return name
         return mixcase(self.rng, name)
 
+    def keyline(self, kt, name, dt):
+        if dt in ("string", "null") and self.rng.random() < 0.04:
+            # a value that begins with a parenthesis needs no blank after the key: the key ends
+            # where the parenthesis begins
+            return "%s%s" % (self.keytext(kt, name), self.rng.choice(["(a b)", "(x", ")y z", "(status >= 500)"]))
+        return "%s %s" % (self.keytext(kt, name), self.value(dt))
+
     def types_for(self, slot):
         sm = self.sm
         st = slot.type.lower()
@@ -567,7 +574,7 @@ class TextGen:
                     if it.kind == "multikey" and rng.random() < 0.3:
                         reps = 2
                     for _j in range(reps):
-                        blocks.append(["%s %s" % (self.keytext(C.kt, k), self.value(it.dt))])
+                        blocks.append([self.keyline(C.kt, k, it.dt)])
             elif it.kind == "key":
                 n = 1 if rng.random() < (0.97 if it.required else 0.5) else 0
                 if self.tight():
@@ -577,7 +584,7 @@ class TextGen:
                 if n and self.p(0.04):
                     n = 2
                 for _ in range(n):
-                    blocks.append(["%s %s" % (self.keytext(C.kt, it.name), self.value(it.dt))])
+                    blocks.append([self.keyline(C.kt, it.name, it.dt)])
             else:
                 n = rng.choice([0, 1, 2, 3]) if not it.required else rng.choice([1, 1, 2, 3])
                 if self.tight():
@@ -585,7 +592,7 @@ class TextGen:
                 if it.required and self.p(0.08):
                     n = 0
                 for _ in range(n):
-                    blocks.append(["%s %s" % (self.keytext(C.kt, it.name), self.value(it.dt))])
+                    blocks.append([self.keyline(C.kt, it.name, it.dt)])
         if self.p(0.04):
             blocks.append(["%s v" % rng.choice(["nosuchkey", "Other-Key"] + FREE_KEYS[C.kt][:2])])
         if self.p(0.02):
@@ -634,7 +641,7 @@ class TextGen:
             # at the depth bound: fill only required plain keys so that deep texts can be valid
             for it in C.items:
                 if it.required and not it.is_section() and not it.wild:
-                    inner.append("%s %s" % (self.keytext(C.kt, it.name), self.value(it.dt)))
+                    inner.append(self.keyline(C.kt, it.name, it.dt))
                 elif it.required and not it.is_section() and it.wild:
                     inner.append("%s %s" % (FREE_KEYS[C.kt][0], self.value(it.dt)))
                 elif it.required and it.is_section() and depth < self.maxdepth + 3 and self.types_for(it):
